@@ -537,6 +537,32 @@ def run_self_containment(j):
                 break
 
 
+def run_function_values(j):
+    """`{ ? }.get_type` / `get` / `keys` answer for every kind of stored value, function values included (named functions,
+    function literals, builtins, functions inside lists / objects / options) — on both runtimes."""
+    ctx = j.ctx
+    src = ('fn helper(x: int) -> int { x + 1 }\nfn main() { let o = new { ? }; o.set("u", helper); o.set("l", fn(x: int) -> int { x }); '
+           'let nn: ?int = none; o.set("non", nn); o.set("lf", [helper]); o.set("of", new { f: helper }); o.set("sf", ?helper); o.set("b", println); '
+           'for k in o.keys() { println(k, o.get_type(k)); } println(o.get("u").is_some(), o.keys().len()); }')
+    want = "b function\nl function\nlf list\nnon Option\nof object\nsf Option\nu function\ntrue 7\n"
+    g = parallel_go("run", [f"(run (main {core.xhex(src)}))"])[0]
+    j.stats["function_value_programs"] = 1
+    ctx.count(case_key=src, nontrivial=True)
+    rep = {"kind": "prog", "main": src, "rep": "anyobj", "member": "get_type"}
+    if g.startswith(("CRASH", "HANG", "PANIC")):
+        j.violate(("prog-crash", "function-values"), rep, f"the accepted program `{src}` crashes the host: {g[:140]}")
+        return
+    parts = dict(p.split("=", 1) for p in g.split(" | ") if "=" in p)
+    if not parts.get("A", "").startswith("ACCEPT"):
+        j.tie(f"inlang-rejected:{src}: {parts.get('A')}")
+        return
+    for be in ("VM", "TREE"):
+        o = progstream.parse_outcome(parts.get(be))
+        if o["cls"] != "OK" or o.get("out") != want:
+            j.violate(("function-values", be), rep, f"{{ ? }}.get_type over function values on the {be} backend: ends {o['cls']} {o.get('msg', '')[:80]} out={o.get('out', '')[-70:]!r}, expected {want!r}")
+            break
+
+
 def run(ctx):
     st = core.prepare(ctx, MODULES)
     ctx.assumptions += [
@@ -572,6 +598,7 @@ def run(ctx):
         run_sequences(j, 60000, 14, 12000)
     run_field_shadow(j, rows)
     run_self_containment(j)
+    run_function_values(j)
     ctx.coverage.update(j.stats)
     ctx.coverage["exhaustive"] = True
     ctx.coverage["rule"] = ("the regenerated analyzer member table (every representative x every member) x boundary receivers "
